@@ -46,7 +46,14 @@ semantic_header = st.one_of(
 )
 headers = st.lists(st.one_of(st.tuples(header_key, header_val), st.tuples(header_key, header_val), semantic_header), max_size=8, unique_by=lambda t: t[0])
 body = st.one_of(st.just(b""), S.binary(0, 60), st.sampled_from([b"\r\n\r\n", b"a\r\n\r\nb", b"\x00\x00", b"\r\n", b"GET / HTTP/1.1\r\n\r\n"]), st.tuples(S.binary(0, 20), S.binary(0, 20)).map(lambda t: t[0] + b"\r\n\r\n" + t[1]))
-path = st.lists(st.text(alphabet=PATH_CHARS, max_size=8), min_size=1, max_size=4).map(lambda segs: ("/" + "/".join(segs)).encode()).filter(lambda p: not p.startswith(b"//"))
+# the path is reported as it is on the wire: percent-escapes in it (of any byte, reserved or not, either hex case,
+# complete or not) are not decoded, normalised or re-cased
+_pct = st.one_of(
+    st.tuples(st.integers(0, 255), st.sampled_from(["%%%02x", "%%%02X"])).map(lambda t: t[1] % t[0]),
+    st.sampled_from(["%70", "%2D", "%2e", "%7E", "%5f", "%41", "%2F", "%3B", "%25", "%00", "%", "%4", "%zz", "%2", "%%"]),
+)
+_segment = st.one_of(st.text(alphabet=PATH_CHARS, max_size=8), st.lists(st.one_of(_pct, st.text(alphabet=TOKEN + ".~", max_size=4)), min_size=1, max_size=4).map("".join))
+path = st.lists(_segment, min_size=1, max_size=4).map(lambda segs: ("/" + "/".join(segs)).encode()).filter(lambda p: not p.startswith(b"//"))
 pkey = st.one_of(st.text(alphabet=TOKEN, min_size=1, max_size=8).map(lambda s: s.encode()), S.binary(0, 8))
 pval = st.one_of(st.text(alphabet=TOKEN + "+/= ", min_size=1, max_size=24).map(lambda s: s.encode()), S.binary(1, 24))
 params = st.lists(st.tuples(pkey, pval), max_size=5, unique_by=lambda t: t[0])
